@@ -2,6 +2,7 @@ package main
 
 import (
 	"fmt"
+	"sort"
 	"golang.org/x/tools/go/ssa"
 	"go/constant"
 	"go/types"
@@ -21,6 +22,7 @@ type CEnv struct {
 	cur   *State
 	old   *State
 	pre   *State // loop invariants: the state at loop entry (before the loop's havoc)
+	rangeKey string // loop invariants of a range over a map: the ghost set of keys already visited
 	iter  *State // step clauses: the state at the start of the current iteration
 	pkg   string
 	guard Term
@@ -144,8 +146,13 @@ func (c *CEnv) eval(x CExpr) (TT, error) {
 	case *CQuant:
 		saved, had := c.vars[n.Var]
 		qv := Term{"q_" + n.Var + fmt.Sprintf("_%d", c.depth), SInt}
+		var qt types.Type
+		if n.VarT == "string" {
+			qv.Sort = SStr
+			qt = types.Typ[types.String]
+		}
 		c.depth++
-		c.vars[n.Var] = TT{qv, nil}
+		c.vars[n.Var] = TT{qv, qt}
 		defer func() {
 			c.depth--
 			if had {
@@ -171,9 +178,9 @@ func (c *CEnv) eval(x CExpr) (TT, error) {
 			rng = T(SBool, "(and (<= %s %s) (< %s %s))", lo.S, qv.S, qv.S, hi.S)
 		}
 		if n.Forall {
-			return TT{T(SBool, "(forall ((%s Int)) %s)", qv.S, implies(rng, body).S), nil}, nil
+			return TT{T(SBool, "(forall ((%s %s)) %s)", qv.S, qv.Sort, implies(rng, body).S), nil}, nil
 		}
-		return TT{T(SBool, "(exists ((%s Int)) %s)", qv.S, and(rng, body).S), nil}, nil
+		return TT{T(SBool, "(exists ((%s %s)) %s)", qv.S, qv.Sort, and(rng, body).S), nil}, nil
 	case *CCall:
 		return c.evalCall(n)
 	case *CType:
@@ -387,6 +394,15 @@ func (c *CEnv) evalBin(n *CBin) (TT, error) {
 	case "%":
 		return TT{T(SInt, "(mod %s %s)", a.S, b.S), nil}, nil
 	case "&", "|", "^":
+		if n.Op == "&" {
+			// masks of the form 2^k-1 are arithmetic (same rule as the encoding of Go's &)
+			if m, ok := new(big.Int).SetString(b.S, 10); ok && m.Sign() >= 0 {
+				m1 := new(big.Int).Add(m, big.NewInt(1))
+				if new(big.Int).And(m1, m).Sign() == 0 {
+					return TT{T(SInt, "(mod %s %s)", a.S, m1.String()), nil}, nil
+				}
+			}
+		}
 		fn := map[string]string{"&": "bitand", "|": "bitor", "^": "bitxor"}[n.Op]
 		// ground instance of commutativity (a true fact about the operation; keeps the query quantifier-free)
 		c.e.assume(tTrue, T(SBool, "(= (%s %s %s) (%s %s %s))", fn, a.S, b.S, fn, b.S, a.S))
@@ -501,6 +517,79 @@ func (c *CEnv) evalCall(n *CCall) (TT, error) {
 			}
 		}
 		return TT{}, fmt.Errorf("addr(): no field %s", selx.F)
+	case "mapsframe":
+		// mapsframe(m1, m2, ...): every map object other than the listed ones is unchanged (relative to the loop entry
+		// inside a loop invariant, to the function entry elsewhere)
+		base := c.pre
+		if base == nil {
+			base = c.old
+		}
+		exclBy := map[string][]string{} // map type id -> exclusions
+		for _, a := range n.Args {
+			v, err := c.eval(a)
+			if err != nil {
+				return TT{}, err
+			}
+			mt, ok := v.T.Underlying().(*types.Map)
+			if v.T == nil || !ok {
+				return TT{}, fmt.Errorf("mapsframe() argument is not a map")
+			}
+			id := e.sortOf(mt.Key()) + ":" + e.sortOf(mt.Elem())
+			exclBy[id] = append(exclBy[id], fmt.Sprintf("(not (= mf_r %s))", v.S))
+		}
+		var parts []Term
+		var keys []string
+		for k := range e.heapSort {
+			if strings.HasPrefix(k, "MD:") || strings.HasPrefix(k, "MV:") || strings.HasPrefix(k, "ML:") {
+				keys = append(keys, k)
+			}
+		}
+		sort.Strings(keys)
+		for _, k := range keys {
+			hc, hb := e.heapGet(c.cur, k), e.heapGet(base, k)
+			if hc.S == hb.S {
+				continue
+			}
+			cond := "true"
+			excl := exclBy[k[3:]]
+			if len(excl) > 0 {
+				cond = "(and " + strings.Join(excl, " ") + ")"
+			}
+			parts = append(parts, T(SBool, "(forall ((mf_r Int)) (! (=> %s (= (select %s mf_r) (select %s mf_r))) :pattern ((select %s mf_r))))", cond, hc.S, hb.S, hc.S))
+		}
+		return TT{and(parts...), nil}, nil
+	case "visited":
+		// visited(k): key k has already been produced by the map range of this loop
+		if err := argN(1); err != nil {
+			return TT{}, err
+		}
+		if c.rangeKey == "" {
+			return TT{}, fmt.Errorf("visited() is only meaningful in invariants of a range over a map")
+		}
+		kv, err := c.eval(n.Args[0])
+		if err != nil {
+			return TT{}, err
+		}
+		return TT{sel(e.heapGet(c.cur, c.rangeKey), kv.Term, SBool), nil}, nil
+	case "has":
+		// has(m, k): key k is present in map m
+		if err := argN(2); err != nil {
+			return TT{}, err
+		}
+		mv, err := c.eval(n.Args[0])
+		if err != nil {
+			return TT{}, err
+		}
+		kv, err := c.eval(n.Args[1])
+		if err != nil {
+			return TT{}, err
+		}
+		mt, ok := mv.T.Underlying().(*types.Map)
+		if mv.T == nil || !ok {
+			return TT{}, fmt.Errorf("has() of non-map")
+		}
+		dk, _, _, _, _ := e.mapKeys(mt)
+		return TT{T(SBool, "(and (not (= %s 0)) (select (select %s %s) %s))", mv.S, e.heapGet(c.cur, dk).S, mv.S, kv.S), nil}, nil
 	case "eaddr":
 		// eaddr(s, i): the address &s[i] of an element of slice s (element pointer)
 		if err := argN(2); err != nil {
@@ -825,6 +914,23 @@ func (c *CEnv) havocTarget(m CExpr, pre, st *State) error {
 		}
 		return fmt.Errorf("no field %s", n.F)
 	case *CCall:
+		if n.Fn == "mapof" && len(n.Args) == 1 {
+			xv, err := pc.eval(n.Args[0])
+			if err != nil {
+				return err
+			}
+			mt, ok := xv.T.Underlying().(*types.Map)
+			if !ok {
+				return fmt.Errorf("mapof() of non-map")
+			}
+			dk, vk, lk, ks, vs := e.mapKeys(mt)
+			e.heapSet(st, dk, store(e.heapGet(st, dk), xv.Term, e.fresh("hv_dom", arraySort(ks, SBool))))
+			e.heapSet(st, vk, store(e.heapGet(st, vk), xv.Term, e.fresh("hv_val", arraySort(ks, vs))))
+			nl := e.fresh("hv_len", SInt)
+			e.assume(tTrue, T(SBool, "(>= %s 0)", nl.S))
+			e.heapSet(st, lk, store(e.heapGet(st, lk), xv.Term, nl))
+			return nil
+		}
 		if n.Fn == "mem" && len(n.Args) == 1 {
 			xv, err := pc.eval(n.Args[0])
 			if err != nil {
@@ -876,6 +982,15 @@ func (e *Enc) modKeys(m CExpr, c *Contract) []string {
 		}
 		return out
 	case *CCall:
+		if n.Fn == "mapof" {
+			var out []string
+			for k := range e.heapSort {
+				if strings.HasPrefix(k, "MD:") || strings.HasPrefix(k, "MV:") || strings.HasPrefix(k, "ML:") {
+					out = append(out, k)
+				}
+			}
+			return out
+		}
 		if n.Fn == "mem" {
 			var out []string
 			for k := range e.heapSort {
